@@ -32,7 +32,7 @@ FRAGMENTS = ['%41', '%zz', '%', '%%', '+', '++', ' ', '1,2', '12,34', '1,2x', ',
              '%2', '%u00e9', '0x41', '-1']
 
 
-def quote_bytes(bs, st, ao, rng=None):
+def quote_bytes(bs, st, ao, rng=None, hi_ok=False):
     """the sender's percent-encoder; mirrors Model.M_params.quote (plus per-byte random choices for safe='rand')"""
     out = bytearray()
     for c in bs:
@@ -48,7 +48,7 @@ def quote_bytes(bs, st, ao, rng=None):
             lit = False
         else:
             lit = rng.random() < .5
-        forced = c in RESERVED or (ao and (c >= 128 or c <= 32 or c == 127 or c == 35))
+        forced = c in RESERVED or (ao and ((c >= 128 and not hi_ok) or c <= 32 or c == 127 or c == 35))
         if lit and not forced:
             out.append(c)
         else:
@@ -61,21 +61,26 @@ def quote_bytes(bs, st, ao, rng=None):
     return bytes(out)
 
 
-def encode_pairs(raw_pairs, st, seps, ao, seed):
+def encode_pairs(raw_pairs, st, seps, ao, seed, hi_ok=False):
     """raw_pairs: [(key bytes, value bytes)]; seps: list of separator bytes (cycled)"""
     rng = random.Random(seed)
     parts = []
     for kb, vb in raw_pairs:
         if st['bare'] and not vb and kb:
-            parts.append(quote_bytes(kb, st, ao, rng))
+            parts.append(quote_bytes(kb, st, ao, rng, hi_ok))
         else:
-            parts.append(quote_bytes(kb, st, ao, rng) + b'=' + quote_bytes(vb, st, ao, rng))
+            parts.append(quote_bytes(kb, st, ao, rng, hi_ok) + b'=' + quote_bytes(vb, st, ao, rng, hi_ok))
     out = b''
     for i, p in enumerate(parts):
         if i:
             out += seps[(i - 1) % len(seps)].encode()
         out += p
     return out
+
+
+def pct_hi(bs):
+    """the same octets with every byte >= 0x80 written %XX (urllib wants an ASCII wire)"""
+    return b''.join(b'%%%02X' % c if c >= 128 else bytes([c]) for c in bs)
 
 
 def to_dict(pairs):
@@ -237,7 +242,7 @@ class C03(core.Check):
                 yield {'kind': 'rawq', 'qs': raw, 'expect': exp, 'imap': im, 'b': [['a', 'z'], ['x', 'w'], ['a', 'zz']]}
 
     RAW_ATOMS = [b'a', b'b', b'a', b'1', b'=', b'=', b'&', b'&', b';', b'+', b'%41', b'%3D', b'%26', b'%c3%a9', b'%C3%A9',
-                 b'%ff', b'%', b'%4', b'%zz', b'%2b', b',', b'2', b'%20', b'%00']
+                 b'%ff', b'%', b'%4', b'%zz', b'%2b', b',', b'2', b'%20', b'%00', b'\xc3\xa9', b'\xe9']
 
     def gen_raw(self, rng):
         """raw query and/or body not produced by a printer: raw '=', empty pairs, bare keys, malformed escapes"""
@@ -338,7 +343,12 @@ class C03(core.Check):
             qe = c.get('qenc', 'utf-8')
             raw_q = [(k.encode(qe, 'replace') if qe == 'latin-1' else k.encode(qe),
                       v.encode(qe, 'replace') if qe == 'latin-1' else v.encode(qe)) for k, v in c['q']]
-            qs = encode_pairs(raw_q, c['stq'], c['sepq'], True, c['seed'])
+            # half of the senders with the minimal style leave every octet >= 0x80 of a UTF-8 query unescaped (the WSGI
+            # server hands them over as Latin-1 code points and recode_path_qs restores them).  Not generated: a
+            # multi-byte sequence partly escaped and partly raw, and raw octets that are not UTF-8 - recode_path_qs
+            # then passes the Latin-1 reading through "and hopes"; the property text does not decide those.
+            hi_ok = c['stq']['safe'] == 'min' and qe == 'utf-8' and c['seed'] % 2 == 0
+            qs = encode_pairs(raw_q, c['stq'], c['sepq'], True, c['seed'], hi_ok=hi_ok)
         body = raw_b = None
         if c['b'] is not None:
             f = SENDERS[c['sender']]
@@ -521,6 +531,12 @@ class C03(core.Check):
     def truth_urllib(self, c, qs, body):
         """raw wire forms: urllib.parse is the reference where it is authoritative (ASCII wire, '&' only,
         every '%' followed by two hex digits); otherwise the property text does not decide"""
+        if any(x >= 128 for x in qs):
+            try:
+                qs.decode('utf-8')
+            except UnicodeDecodeError:
+                return None  # raw octets that are not UTF-8: passed through as Latin-1 "and hope" (documented)
+            qs = pct_hi(qs)  # an unescaped UTF-8 sequence of the query is those octets
         if not self.WELLFORMED.fullmatch(qs) or (body is not None and not self.WELLFORMED.fullmatch(body)):
             return None
         if IMAP.fullmatch(qs.decode('ascii')):
@@ -551,7 +567,7 @@ class C03(core.Check):
             if qs is not None:
                 if len(c['sepq']) != 1:
                     return None
-                pairs += urllib.parse.parse_qsl(qs.decode('ascii'), keep_blank_values=True, encoding='utf-8',
+                pairs += urllib.parse.parse_qsl(pct_hi(qs).decode('ascii'), keep_blank_values=True, encoding='utf-8',
                                                 errors='strict', separator=c['sepq'][0])
         except UnicodeDecodeError:
             return (404,)
